@@ -133,6 +133,71 @@ theorem src_predict_path (r : Rule) (s t : Rat) :
        | some (pi, c) => pi * c + (1 - pi) * (r.p0 * ind (r.op0.apply s) + r.p1 * ind (r.op1.apply s))) :=
   ⟨by rw [src_opGt_eq]; simp, by rw [src_opLt_eq]; simp, src_ruleProb r s⟩
 
+/-! ### The model COMPUTES WITH the lifted loop shape, extremum, reduction, guard and counts
+Each `lifted_*` theorem says: the model function evaluated with the value the lifter read from the source equals the
+closed form every theorem below is proved about.  An edit of that source text changes the generated value and breaks the
+theorem named here (or is refused by the lifter). -/
+
+/-- `_filter_points_to_get_convex_hull`, run with the LIFTED `while len(selected) >= 2` / `selected[-1]` / `selected[-2]` /
+    `selected.pop()` and the lifted turn test, raises no `IndexError` and is Andrew's monotone chain `hullRev` (the function
+    `hull_invariants` is proved about) -/
+theorem lifted_hull_loop (pts : List Pt) :
+    hullSrc pts = some (upperHull pts) ∧ upperHull pts = (hullRev pts).reverse := by
+  rw [upperHull_eq]; exact ⟨hullSrc_eq pts, rfl⟩
+
+/-- the `while` loop alone: from any stack, with `len + 1` fuel, the lifted loop returns what the structural recursion returns -/
+theorem lifted_hull_while (r2 : Pt) (st : List Pt) : popWhileSrc r2 (st.length + 1) st = some (popWhile r2 st) :=
+  popWhileSrc_eq r2 _ st (Nat.lt_succ_self _)
+
+/-- `_get_counts` (lifted: `len(labels)`, `sum(labels)`, `n - n_positive`) gives the numbers of rows / positive / negative
+    rows, and the lifted guard `n_positive == 0 or n_negative == 0` fires iff one of them is 0 -/
+theorem lifted_counts_and_guard (flip : Bool) (xm ym : Metric) (rows : List Row) :
+    srcCounts rows = ((rows.length : Rat), (nPos rows : Rat), (nNeg rows : Rat)) ∧
+    (degenerate rows = true ↔ (nPos rows = 0 ∨ nNeg rows = 0)) ∧
+    (tradeoffPoints flip xm ym rows = none ↔ (nPos rows = 0 ∨ nNeg rows = 0)) := by
+  refine ⟨srcCounts_eq rows, src_degenerate rows, ?_⟩
+  rw [tradeoffPoints_eq]
+  by_cases h : nPos rows = 0 ∨ nNeg rows = 0 <;> simp [h]
+
+/-- `idxmax` (lifted for both methods): the index chosen addresses a maximal entry and every EARLIER entry is strictly
+    smaller — the first maximum -/
+theorem lifted_best_index (l : List Rat) (hne : l ≠ []) :
+    bestIndexSimple l = bestIndexEO l ∧
+    ∃ m, l[bestIndexSimple l]? = some m ∧ (∀ v ∈ l, v ≤ m) ∧
+      ∀ k w, k < bestIndexSimple l → l[k]? = some w → w < m := by
+  rw [bestIndexSimple_eq, bestIndexEO_eq]
+  obtain ⟨m, hm, hmax⟩ := argmaxFirst_spec l hne
+  exact ⟨rfl, m, hm, hmax, fun k w hk hw => argmaxFirst_first l k w m hk hw hm⟩
+
+/-- `np.amin(y_values, axis=1)` (lifted): `_y_min` at a grid point is an attained lower bound of the groups' y values -/
+theorem lifted_y_min (ys : List Rat) (m : Rat) (h : yReduce ys = some m) : m ∈ ys ∧ ∀ v ∈ ys, m ≤ v := by
+  rw [yReduce_eq] at h; exact minList_spec ys m h
+
+/-- `np.around(., 15)` is the identity on the exact model (ASSUMPTION, see `Threshold.aroundModel`);
+    `prediction_constant` (lifted) is `x_best`; `n_negative` (lifted `n - n_positive`) is the number of negative rows -/
+theorem lifted_eo_glue (groups : List (List Row)) (v x y : Rat) :
+    aroundModel ThresholdFitSrc.aroundDecimals v = v ∧ ThresholdFitSrc.predictionConstant x y = x ∧
+    eoNegatives groups = (totalNeg groups : Rat) :=
+  ⟨aroundModel_eq _ v, src_predictionConstant x y, eoNegatives_eq groups⟩
+
+/-- both fit functions, computed with the lifted definitions, ARE the closed forms (first maximum of the exact objective,
+    pointwise minimum, `prediction_constant = x_best`) that `parity_*`, `fit_*` and C05's `optimal_*` are proved about -/
+theorem lifted_fit_closed_forms (flip : Bool) (xm ym obj : Metric) (N : Nat) (groups : List (List Row)) (force : Option Nat)
+    (fit : Fit) (yBest : Rat) :
+    (fitSimple flip xm ym N groups force = some fit →
+      fit.iBest = force.getD (argmaxFirst (((curves ((hullsOf flip xm ym groups).getD []) N).getD []).map (objSimple groups)))) ∧
+    (fitEO flip obj N groups force = some (fit, yBest) →
+      ∀ r ∈ fit.rules, ∃ pi, r.ign = some (pi, gridVal N fit.iBest)) := by
+  constructor
+  · intro h
+    obtain ⟨hulls, cs, best, hh, hc, _, _, _, _, hi⟩ := fitSimple_some h
+    rw [hh, Option.getD_some, hc]; exact hi
+  · intro h r hr
+    obtain ⟨hulls, cs, ymins, best, _, _, _, _, _, _, hrules, _, _⟩ := fitEO_some h
+    rw [hrules] at hr
+    obtain ⟨i, _, rfl⟩ := List.mem_map.mp hr
+    exact ⟨_, rfl⟩
+
 /-- (a) every METRIC_DICT entry is affine in the confusion counts for a fixed number of positives and negatives -/
 theorem metric_affine (m : Metric) (a b : Rat) (A B : CM) (hab : a + b = 1)
     (hp : A.positives = B.positives) (hn : A.negatives = B.negatives) :
@@ -199,7 +264,7 @@ theorem fit_simple_succeeds_any_grid (flip : Bool) (xm ym : Metric) (N : Nat) (g
   obtain ⟨m, hm, _⟩ := argmaxFirst_spec _ hne
   have hlt : argmaxFirst (cs.map (objSimple groups)) < cs.length := by
     have := (List.getElem?_eq_some_iff.mp hm).1; simpa using this
-  unfold fitSimple
+  rw [fitSimple_eq]
   rw [hh]; simp only
   rw [hc]; simp only [Option.getD_none]
   rw [List.getElem?_eq_getElem hlt, List.getElem?_eq_getElem (by simpa using hlt)]
@@ -283,7 +348,7 @@ theorem fit_EO_succeeds_any_grid (flip : Bool) (obj : Metric) (N : Nat) (groups 
   obtain ⟨m, hm, _⟩ := argmaxFirst_spec _ hne
   have hlt : argmaxFirst objs < N + 1 := by
     have := (List.getElem?_eq_some_iff.mp hm).1; omega
-  unfold fitEO
+  rw [fitEO_eq]
   rw [hh]; simp only
   rw [hc]; simp only
   rw [hy]; simp only [Option.getD_none]
